@@ -141,7 +141,8 @@ def run(shard, ctx):
             for i in range(shard["n"]):
                 one = rng.random() < 0.8
                 c = MM.random_composition(rng, values, one_key_meter=one, instrument="random", velocity=(1, 127),
-                                          same_channel=rng.random() < 0.7, rest_p=rng.choice([0.15, 0.3, 0.5]))
+                                          same_channel=rng.random() < 0.7, rest_p=rng.choice([0.15, 0.3, 0.5]),
+                                          tempo_p=rng.choice([0, 0, 0, 0.2]))
                 for k, t in enumerate(c["tracks"]):
                     if not t["name"]:
                         t["name"] = "T%d" % k
@@ -170,7 +171,9 @@ def run(shard, ctx):
                 c2, bpm2 = rb
                 ctx.check("roundtrip: the same number of tracks comes back", len(c2.tracks) == len(c["tracks"]), w, len(c["tracks"]),
                           len(c2.tracks), mechanism="track-count")
-                ctx.check("tempo: the tempo read back equals the tempo written", bpm2 == bpm, w, bpm, bpm2, mechanism="tempo")
+                # (a piece whose containers carry tempo changes has no single tempo to read back; its music is compared all the same)
+                if not any(e.get("bpm") for t in c["tracks"] for b in t["bars"] for e in b["entries"]):
+                    ctx.check("tempo: the tempo read back equals the tempo written", bpm2 == bpm, w, bpm, bpm2, mechanism="tempo")
                 if len(c2.tracks) != len(c["tracks"]):
                     continue
                 for ti, (ts, t2) in enumerate(zip(c["tracks"], c2.tracks)):
